@@ -301,6 +301,43 @@ theorem xyz_shift [DecidableEq R] (t0 a : R) (px py pz : List R) (t : R) :
     (eval px (a * t - t0), eval py (a * t - t0), eval pz (a * t - t0)) := by
   simp [eval_shift]
 
+/-! ### vector polynomials on array arguments of any shape: result shape `t.shape + (3,)`, entry `(i, c)` is component `c` at point `i` -/
+theorem xyzEvalFlat_length (px py pz ts : List R) : (xyzEvalFlat px py pz ts).length = 3 * ts.length := by
+  unfold xyzEvalFlat
+  induction ts with
+  | nil => rfl
+  | cons t ts ih => simp only [List.map_cons, List.flatten_cons, List.length_append, ih, List.length_cons, List.length_nil]; omega
+
+theorem xyzEvalFlat_get (px py pz ts : List R) (i c : Nat) (hi : i < ts.length) (hc : c < 3) :
+    (xyzEvalFlat px py pz ts)[3 * i + c]? = some (eval ([px, py, pz][c]'(by simpa using hc)) ts[i]) := by
+  unfold xyzEvalFlat
+  induction ts generalizing i with
+  | nil => simp at hi
+  | cons t ts ih =>
+    simp only [List.map_cons, List.flatten_cons]
+    cases i with
+    | zero =>
+      have h3 : c = 0 ∨ c = 1 ∨ c = 2 := by omega
+      rcases h3 with rfl | rfl | rfl <;> simp
+    | succ j =>
+      have hj : j < ts.length := by simpa using hi
+      have : 3 * (j + 1) + c = 3 + (3 * j + c) := by omega
+      rw [this, List.getElem?_append_right (by simp)]
+      simpa using ih j hj
+
+/-- a 0-d argument is the one-point case: the three components -/
+theorem xyzEvalFlat_single (px py pz : List R) (t : R) : xyzEvalFlat px py pz [t] = [eval px t, eval py t, eval pz t] := by
+  simp [xyzEvalFlat]
+
+theorem xyzDerEvalFlat_get (n : Nat) (px py pz ts : List R) (i c : Nat) (hi : i < ts.length) (hc : c < 3) :
+    (xyzDerEvalFlat n px py pz ts)[3 * i + c]? = some (eval (derN n ([px, py, pz][c]'(by simpa using hc))) ts[i]) := by
+  unfold xyzDerEvalFlat
+  rw [xyzEvalFlat_get _ _ _ _ i c hi hc]
+  have h3 : c = 0 ∨ c = 1 ∨ c = 2 := by omega
+  rcases h3 with rfl | rfl | rfl <;> rfl
+
+example : xyzEvalFlat ([1, 2] : List Int) [0, 0, 1] [5] [10, 20] = [21, 100, 5, 41, 400, 5] := by decide
+
 /-! ### non-vacuity (ℤ): a cubic, shifted and scaled, and its second derivative -/
 example : minimize2 ([[1, 0, 0], [2, 0, 0], [-3, 0, 0], [0, 0, 0]] : List (List Int)) = [[1], [2], [-3]] := by decide
 example : minimize2 ([[1, 0, 2, 0], [0, 5, 0, 0], [0, 0, 0, 0]] : List (List Int)) = [[1, 0, 2], [0, 5, 0]] := by decide
